@@ -7,7 +7,7 @@ namespace Pog.Drv
 def planFns : List String :=
   ["planWrites", "planRun", "showDiffs", "pyLines", "renderImports", "makeRelativeImport", "initExports",
    "relpathRoundtrip", "relpath", "normalise", "strPrefixTest", "pkgToPath", "ancestorsTo",
-   "extractUrlVars", "finalParams", "importTables", "dedupTwice", "sortedStrs"]
+   "extractUrlVars", "finalParams", "codeParams", "importTables", "dedupTwice", "sortedStrs"]
 
 private def optField (j : Json) (k : String) : Option Json :=
   match j.getObjVal? k with
@@ -223,6 +223,8 @@ def planRunFn (f : String) (a : Array Json) : Except String Json := do
   | "extractUrlVars" => pure (jstrs (extractUrlVars (← getStr (← argN a 0))))
   | "finalParams" =>
     pure (jlist jparam (finalParams (← getList getParam (← argN a 0)) (← getStrs (← argN a 1))))
+  | "codeParams" =>
+    pure (jlist jparam (codeParams (← getList getParam (← argN a 0)) (← getStrs (← argN a 1))))
   | "importTables" =>
     pure (Json.mkObj [("preferPlain", jstrs preferPlainModules), ("commonStdlib", jstrs commonStdlib)])
   | "dedupTwice" =>
